@@ -815,8 +815,56 @@ def check_registry(ctx):
                bad[1], g, bad[0].cond_text()[-160:]))
 
 
+MEMO_DECORATORS = ('lru_cache', 'cache', 'cached', 'memoize', 'memoized')
+
+
+def check_fresh(ctx):
+    """A parse hands out a tree of its own.  And / Or nodes are mutable
+    (add_check, pop_check are public): a parser function that remembers its
+    results - a memoising decorator - gives every text that prints alike the
+    same object, and an edit through one holder changes what the printed
+    form of all the others reparses to."""
+    prog = ctx.prog
+    mod = prog.module(PARSER)
+    mutable = sorted(
+        c.qual.rsplit('.', 1)[-1] for c in prog.classes.values()
+        if c.module.name == CHECKS and any(
+            m in c.methods for m in ('add_check', 'pop_check')))
+    n = 0
+    for f in mod.functions.values():
+        n += 1
+        memo = [d for d in f.node.decorator_list
+                if U(d.func if isinstance(d, ast.Call) else d).split(
+                    '.')[-1] in MEMO_DECORATORS]
+        if memo:
+            # ... unless every caller takes a deep copy of what it gets
+            from ..util import parent_map
+            sites = []
+            for g in prog.functions.values():
+                pm = None
+                for c in ast.walk(g.node):
+                    if isinstance(c, ast.Call) and prog.callee_of(g, c) is f:
+                        pm = pm or parent_map(g.node)
+                        up = pm.get(c)
+                        sites.append(isinstance(up, ast.Call) and U(
+                            up.func) in ('copy.deepcopy', 'deepcopy'))
+            if sites and all(sites):
+                memo = []
+        ctx.ob('C15.FRESH', not memo, ctx.where(f.module, f.node), f.qual,
+               'decorators %s' % [U(d)[:40] for d in f.node.decorator_list],
+               'parses afresh on every call' if not memo else
+               'the parser function %s remembers its results (%s): two '
+               'parses of texts that print alike share one tree, and %s '
+               'nodes can be edited in place (add_check / pop_check), so '
+               'print -> reparse no longer gives an equivalent rule once one '
+               'holder edits its tree' % (f.name, U(memo[0])[:40],
+                                          ' / '.join(mutable) or 'And/Or'))
+    ctx.floor('C15.FRESH', n, 3, 'parser functions')
+
+
 def check(ctx):
     ctx.use(CHECKS, PARSER, POLICY)
+    check_fresh(ctx)
     ctx.explain('C15: printer formats are extracted from every __str__ and '
                 'checked against the reader\'s tokenizer facts; over all '
                 'trees the reducer table can produce from sentences up to '
